@@ -26,7 +26,7 @@ ASSUMPTIONS = ["timer checks happen at the harness's ticks (one I/O-loop iterati
                "'longer than the timeout' is strict: elapsed == timeout must not trigger"]
 TIMEOUT = {"quick": 900, "thorough": 3600}
 SCTP_CLONES = {"quick": ['rand5', 'exh9'], "thorough": ['rand14', 'rand15', 'exh15']}
-EVENTS = ["none", "traffic", "dwa", "dwr", "partial"]
+EVENTS = ["none", "traffic", "dwa", "dwr", "partial", "nodetx"]
 
 
 def shards(tier, seed):
@@ -147,7 +147,7 @@ class Scenario:
             h.advance(dt)
             now = h.now
             hbh, e2e = 5000 + si, 6000 + si
-            if pending_tail and ev != "none":
+            if pending_tail and ev not in ("none", "nodetx"):
                 p.send(pending_tail)     # complete the fragment first: the byte stream stays well-formed
                 pending_tail = b""
             if ev == "traffic":
@@ -163,6 +163,14 @@ class Scenario:
                 p.send(M.dwa("peer1.verif.example", self.REALM, hbh=ids[0], e2e=ids[1]))
             elif ev == "dwr":
                 p.send(M.dwr("peer1.verif.example", self.REALM, hbh=hbh, e2e=e2e))
+            elif ev == "nodetx":
+                # the node itself sends on the connection (an application request nobody answers): nothing has
+                # been *received*, the idle clock runs on
+                from vf.simnet.world import app_request
+                res = {}
+                app_request(self.w.apps["a4"], self.REALM, 0.002, res, session=f"tx;{si}")
+                run.cov["nodetx_events"] = run.cov.get("nodetx_events", 0) + 1
+                ev = "none"
             want_dwr, want_close = model.predict(now, ev)
             h.settle()
             p.drain()
